@@ -131,15 +131,15 @@ def c06_scenarios(wd, tr, rng):
     with open(os.path.join(wd, "MC_maps.tla"), "w") as f:
         f.write("""---- MODULE MC_maps ----
 EXTENDS Integers, FiniteSets, TLC, Json
-Nodes == {11, 12, 13, 14}
-Parties == {1, 2, 3}
+Nodes == %s
+Parties == %s
 VARIABLE done
 Init == done = FALSE
 Next == /\\ ~done /\\ done' = TRUE
-        /\\ \\A m \\in [Nodes -> Parties] : \\A S \\in {X \\in SUBSET Nodes : 11 \\in X /\\ Cardinality(X) \\in {2, 3}} :
+        /\\ \\A m \\in [Nodes -> Parties] : \\A S \\in {X \\in SUBSET Nodes : 11 \\in X /\\ Cardinality(X) \\in %s} :
               PrintT(<<"CASE", ToJson([map |-> [n \\in Nodes |-> m[n]], parts |-> S, dup |-> \\E a, b \\in S : a # b /\\ m[a] = m[b]])>>)
 ====
-""")
+""" % (("{11, 12, 13, 14}", "{1, 2, 3}", "{2, 3}") if tr != "thorough" else ("{11, 12, 13, 14, 15}", "{1, 2, 3, 4}", "{2, 3, 4}")))
     with open(os.path.join(wd, "MC_maps.cfg"), "w") as f:
         f.write("INIT Init\nNEXT Next\n")
     r = vlib.run_tlc("MC_maps", "MC_maps.cfg", [], workdir=wd, workers=1, timeout=300, keep_prints=["CASE"])
@@ -150,9 +150,9 @@ Next == /\\ ~done /\\ done' = TRUE
         parts = sorted(cse["parts"])
         if tr == "thorough" and i % 3 == 0:
             # the same case with identifiers drawn from the 16-bit range (order-preserving renaming of nodes, arbitrary of parties)
-            nodes = sorted(rng.sample(range(256, 65536), 4))
-            ren = dict(zip([11, 12, 13, 14], nodes))
-            pren = dict(zip([1, 2, 3], rng.sample(range(0, 65536), 3)))
+            nodes = sorted(rng.sample(range(256, 65536), 5))
+            ren = dict(zip([11, 12, 13, 14, 15], nodes))
+            pren = dict(zip([1, 2, 3, 4], rng.sample(range(0, 65536), 4)))
             mp = {str(ren[int(k)]): pren[v] for k, v in mp.items()}
             parts = sorted(ren[p] for p in parts)
             self_ = ren[11]
@@ -295,8 +295,8 @@ def execute(pid, scenarios, wd, verdict):
                           dict(property=pid, monitor=o["mon"], scenario=sc, line=o["l"], observations=[
                               {k: v for k, v in e.items() if k in ("e", "c", "kind", "topic", "label", "got", "res", "detail", "tables", "onmsg", "synch", "sends", "panic", "initp", "from", "to")}
                               for e in lines_by_t.get(o["t"], [])]))
-    st_res = "thorough tier only"
-    if vlib.tier() == "thorough" and not verdict.violations and scenarios:
+    st_res = None
+    if not verdict.violations and scenarios:
         def c_res(evs):
             for e in evs:
                 if e["e"] == "step" and e.get("probe") == "end" and e["res"] == "ok":
